@@ -85,6 +85,26 @@ Proof.
 Qed.
 Print Assumptions C09_nonvacuous.
 
+(* REFUTED without the input hypothesis: the implementation's validator check_format_input_orientation
+   accepts an EMPTY scipy Rotation (a path of 0 orientations), an input that is not wf_inp.  The faithful
+   model of the orientation setter then stores position and orientation paths of length 0, so the clause
+   "position and orientation paths always have equal length >= 1" fails: the hypothesis `Forall wf_op h`
+   of C09_lengths_invariant is not guaranteed by the implementation's own input check
+   (known finding lengths/orientation=:empty-rotation). *)
+Theorem C09_lengths_invariant_empty_orientation_refuted :
+  let o := init_pose (O := OctOps) (Vector [(1, 2, 3); (4, 5, 6)]) None in
+  let x := @SetOri OctOps (Some (Vector [])) in
+  wf o /\ ~ wf_op x /\ zlen (pos (step o x)) = 0 /\ zlen (ori (step o x)) = 0 /\ ~ wf (step o x).
+Proof.
+  cbv zeta. split; [|split; [|split; [|split]]].
+  - apply wf_init; cbv; [discriminate|exact I].
+  - intros H. vm_compute in H. apply H. reflexivity.
+  - vm_compute. reflexivity.
+  - vm_compute. reflexivity.
+  - intros [H _]. vm_compute in H. apply H. reflexivity.
+Qed.
+Print Assumptions C09_lengths_invariant_empty_orientation_refuted.
+
 (* ---- the physical instance: positions in R^3, orientations in SO(3) (Lib/RigidR3.v, matrices with
    M M^T = I and det M = 1; scipy's quaternion product is the group law there, RigidR3.quat_to_rot_mul).
    The path semantics holds verbatim for it. *)
